@@ -37,6 +37,8 @@ def run_variant(args):
     from .srcmodel import Model
 
     load_rules()
+    # variants run side by side: the history rules' own worker pools stay small (no nested explosion of processes)
+    os.environ["XOVERIF_JOBS"] = os.environ.get("XOVERIF_SELFTEST_INNER_JOBS", "2")
     d = _scratch(root)
     try:
         if v.get("patch"):
@@ -118,7 +120,7 @@ def pinned_variants():
     return out
 
 
-def run_selftest(prop, root, jobs=16):
+def run_selftest(prop, root, jobs=8):
     vs = [v for v in load_variants() + seeded_variants() + pinned_variants() if prop in v["props"]]
     lines, failed, names = [], 0, []
     out = {"detected": 0, "silent": 0, "missed": 0, "false-alarm": 0, "stale": 0, "analysis-error": 0, "wrong-rule": 0}
